@@ -33,6 +33,14 @@ CHECKS = {
               "integers, discharged by z3 (ctypes truncation modelled); assembler and SDK entry routes as labelled bounded stand-ins."),
         technique="contract-based deductive verification: encode-or-reject contract per shape over all integers, VCs by symbolic execution, z3 LIA; bounded native route checks",
         design_ref="5.C16"),
+    "C07": dict(
+        category="proof",
+        text=("Every gate x electron/carbon placement (virtual ids symbolic; the real transpiler's forks explored) yields a concrete NV circuit "
+              "whose operator is compared exactly (Z[zeta64][1/2]) with the vanilla gate up to global phase, carbon-carbon as an operator identity "
+              "on 3 wires (borrowed electron returned), MOV as state transfer; rotation operands by z3. The published-matrix clause is decided "
+              "by exhaustive numeric evaluation over the operand grid and is reported as bounded, not counted as proved."),
+        technique="contract-based deductive verification: symbolic execution of the real transpiler + exact cyclotomic operator identities; z3 LIA for rotation operands; numeric exhaustive stand-in for to_matrix",
+        design_ref="5.C07"),
 }
 
 NA_REASON = "check not built yet in this session (see DESIGN.md section 5 for the planned contracts)"
